@@ -1422,6 +1422,10 @@ class TransferManager(BaseManager):
 
                     if current_state == TransferState.FAILED:
                         await transfer.state.queue(remotely=True)
+                        # Another request could have been handled in the
+                        # meantime
+                        if transfer._transfer_task is not None and not transfer._transfer_task.done():
+                            return
 
                     transfer._transfer_task = asyncio.create_task(
                         self._initialize_download(transfer, connection, message),
